@@ -245,9 +245,14 @@ Definition pick (s : sstate) : N * sstate :=
 Definition enc_of (c : N) : enc := if N.even c then EQuoted else ELiteral.
 
 (* a status reply whose optional parts are decided by one choice number:
-   bit 0: literal text, bits 1-2: 0 = no text, otherwise text; code always sent when given *)
+   bit 0: literal text, bits 1-2: 0 = no text, otherwise text; code always sent when given; an OK reply without
+   a code of its own carries the response code WARNINGS when bit 3 is set (RFC 5804 2.6 / 2.12 allow it) *)
 Definition mk_reply (st : status) (code : option bytes) (text : bytes) (c : N) : reply :=
-  mkReply st code
+  mkReply st
+          (match st, code with
+           | StOK, None => if (c / 8) mod 2 =? 1 then Some (bs "WARNINGS") else None
+           | _, _ => code
+           end)
           (if (c / 2) mod 4 =? 0 then None else Some (enc_of c, text)).
 
 Definition reply_bytes (st : status) (code : option bytes) (text : bytes) (s : sstate)
